@@ -32,6 +32,9 @@ type NetConfig struct {
 	ReorderRate float64
 	MinLatency  time.Duration
 	MaxLatency  time.Duration
+	// HoldOnPartition models a stalled (not reset) connection: frames sent
+	// across a partition are delivered when it heals instead of being lost.
+	HoldOnPartition bool
 }
 
 type Config struct {
@@ -62,13 +65,13 @@ type Monitor interface {
 // BaseMonitor provides no-op defaults.
 type BaseMonitor struct{}
 
-func (BaseMonitor) BeforeStore(*SNode, *StoreCall)                  {}
-func (BaseMonitor) AfterStore(*SNode, *StoreCall)                   {}
-func (BaseMonitor) OnSend(_, _ *SNode, _ []byte) [][]byte           { return nil }
-func (BaseMonitor) OnDeliver(_, _ *SNode, _ []byte)                 {}
-func (BaseMonitor) AfterStep(*SNode, string)                        {}
-func (BaseMonitor) OnPanic(*SNode, string, any, string) bool        { return false }
-func (BaseMonitor) OnRestart(*SNode)                                {}
+func (BaseMonitor) BeforeStore(*SNode, *StoreCall)           {}
+func (BaseMonitor) AfterStore(*SNode, *StoreCall)            {}
+func (BaseMonitor) OnSend(_, _ *SNode, _ []byte) [][]byte    { return nil }
+func (BaseMonitor) OnDeliver(_, _ *SNode, _ []byte)          {}
+func (BaseMonitor) AfterStep(*SNode, string)                 {}
+func (BaseMonitor) OnPanic(*SNode, string, any, string) bool { return false }
+func (BaseMonitor) OnRestart(*SNode)                         {}
 
 type Violation struct {
 	Property  string `json:"property"`
@@ -134,6 +137,7 @@ type Cluster struct {
 	Monitors []Monitor
 
 	blocked   map[[2]int]bool
+	held      map[[2]int][]func()
 	linkClock map[[2]int]time.Duration
 	Stats     map[string]int
 	Violation *Violation
@@ -149,7 +153,9 @@ func (c *Cluster) count(k string) { c.Stats[k]++ }
 func (c *Cluster) Count(k string) { c.Stats[k]++ }
 
 // Account derives fixed key material.
-func Account(seed uint64, idx int, role string) common.Address { return deterministicAccount(seed, idx, role) }
+func Account(seed uint64, idx int, role string) common.Address {
+	return deterministicAccount(seed, idx, role)
+}
 
 func deterministicAccount(seed uint64, idx int, role string) common.Address {
 	s := make([]byte, 64)
@@ -548,13 +554,29 @@ func (c *Cluster) scheduleRestart(n *SNode) {
 // ---------------------------------------------------------------- transport
 
 func (c *Cluster) Partition(a, b int, on bool) {
-	c.blocked[[2]int{a, b}] = on
-	c.blocked[[2]int{b, a}] = on
+	c.PartitionOneWay(a, b, on)
+	c.PartitionOneWay(b, a, on)
 }
 
-func (c *Cluster) PartitionOneWay(from, to int, on bool) { c.blocked[[2]int{from, to}] = on }
+func (c *Cluster) PartitionOneWay(from, to int, on bool) {
+	link := [2]int{from, to}
+	c.blocked[link] = on
+	if !on {
+		for _, f := range c.held[link] {
+			f()
+		}
+		delete(c.held, link)
+	}
+}
 
-func (c *Cluster) HealAll() { c.blocked = make(map[[2]int]bool) }
+func (c *Cluster) HealAll() {
+	for link, on := range c.blocked {
+		if on {
+			c.PartitionOneWay(link[0], link[1], false)
+		}
+	}
+	c.blocked = make(map[[2]int]bool)
+}
 
 // flush drains the outgoing rings of n and schedules deliveries.
 func (c *Cluster) flush(n *SNode) {
@@ -605,6 +627,15 @@ func (c *Cluster) transmit(from, to *SNode, data []byte) {
 	typ := p2p.SimMessageType(data)
 	c.count("sent")
 	if c.blocked[[2]int{from.Idx, to.Idx}] {
+		if c.Cfg.Net.HoldOnPartition {
+			c.count("net.partition_hold")
+			link := [2]int{from.Idx, to.Idx}
+			if c.held == nil {
+				c.held = make(map[[2]int][]func())
+			}
+			c.held[link] = append(c.held[link], func() { c.transmit(from, to, data) })
+			return
+		}
 		c.count("net.partition_drop")
 		return
 	}
